@@ -2,7 +2,9 @@ use crate::debugger::address::RelocatedAddress;
 use crate::debugger::breakpoint::{Breakpoint, BrkptType};
 use crate::debugger::debugee::tracee::{StopType, TraceeCtl, TraceeStatus};
 use crate::debugger::error::Error;
-use crate::debugger::error::Error::{MultipleErrors, ProcessExit, Ptrace, Waitpid};
+use crate::debugger::error::Error::{
+    MultipleErrors, ProcessExit, Ptrace, TraceeNotFound, Waitpid,
+};
 use crate::debugger::register::debug::DebugRegisterNumber;
 use crate::debugger::watchpoint::WatchpointRegistry;
 use crate::debugger::{code, register};
@@ -531,11 +533,21 @@ impl Tracer {
         pid: Pid,
     ) -> Result<Option<StopReason>, Error> {
         let tracee = self.tracee_ctl.tracee_ensure(pid);
+        let tracee_number = tracee.number;
         let initial_pc = tracee.pc()?;
         tracee.step(None)?;
 
         let reason = loop {
-            let tracee = self.tracee_ctl.tracee_ensure_mut(pid);
+            let Some(tracee) = self.tracee_ctl.tracee_mut(pid) else {
+                // The thread went through PTRACE_EVENT_EXIT during the step (it executed
+                // `exit` or `exit_group`) and is not a tracee anymore, there is nothing left
+                // to step: let the rest go on and report the exit of the process.
+                return match self.resume(tcx)? {
+                    StopReason::DebugeeExit(code) => Err(ProcessExit(code)),
+                    StopReason::NoSuchProcess(_) => Err(ProcessExit(0)),
+                    _ => Err(TraceeNotFound(tracee_number)),
+                };
+            };
             let status = tracee.wait_one()?;
             let info = sys::ptrace::getsiginfo(pid).map_err(Ptrace)?;
 
